@@ -201,6 +201,15 @@ Shadow(g, m1, m2, u) == {
   "local o = {} function o:m(" \o g \o ") return 1 end local " \o g \o " = " \o m1 \o " " \o u,
   "local " \o g \o " = " \o m1 \o " local o = {} function o:m(" \o g \o ") return 1 end " \o u,
   "local " \o g \o " " \o g \o " = " \o m1 \o " " \o u }
+\* the HEADER of a generic / numeric for is evaluated OUTSIDE the scope of the loop variables: a watched global used there
+\* is the global even when a loop variable has its name (and the outer local when one shadows it)
+Once == "local function once(a) ext1(\"hdr\", a) return function() return nil end end "
+ShadowHeader(g, m1, ue) == {
+  Once \o "for " \o g \o " in once(" \o ue \o ") do ext1(0) end",
+  Once \o "for k, " \o g \o " in once(" \o ue \o ") do ext1(0) end",
+  Once \o "local " \o g \o " = " \o m1 \o " for " \o g \o " in once(" \o ue \o ") do ext1(0) end",
+  Once \o "for " \o g \o " in once(" \o ue \o "), once(" \o ue \o ") do ext1(0) end ext1(" \o ue \o ")",
+  Once \o "for " \o g \o " = 1, 0 do ext1(0) end for k in once(" \o ue \o ") do end" }
 MathMock == "{sqrt = function(x) ext1(x) return 7 end}"
 MathMock2 == "{sqrt = function(x) return 8 end}"
 AssertMock == "function(...) ext1(\"mock\", ...) return 9 end"
@@ -210,7 +219,7 @@ DebugMock2 == "{profilebegin = function() end, profileend = function() end}"
 GMock == "{INJ = ext1(7), assert = function(...) ext1(\"mock\", ...) end}"
 GMock2 == "{INJ = 8, assert = function() end}"
 ShadowShapes(group) ==
-  IF group = "c16" THEN Shadow("math", MathMock, MathMock2, "ext1(math.sqrt(16))")
+  IF group = "c16" THEN Shadow("math", MathMock, MathMock2, "ext1(math.sqrt(16))") \cup ShadowHeader("math", MathMock, "math.sqrt(16)")
   ELSE IF group = "c17" THEN
          Shadow("assert", AssertMock, AssertMock2, "assert(extf(), ext1(2))")
     \cup Shadow("debug", DebugMock, DebugMock2, "debug.profilebegin(ext1(1)) debug.profileend()")
@@ -219,6 +228,8 @@ ShadowShapes(group) ==
     \cup Shadow("INJ", "ext1(7)", "8", "ext1(_G[\"INJ\"])")
     \cup Shadow("_G", GMock, GMock2, "ext1(_G.INJ)")
     \cup Shadow("_G", GMock, GMock2, "ext1(_G[\"INJ\"])")
+    \cup ShadowHeader("assert", AssertMock, "assert(extf(), 3)") \cup ShadowHeader("INJ", "ext1(7)", "INJ") \cup ShadowHeader("INJ", "ext1(7)", "_G.INJ")
+    \cup ShadowHeader("_G", GMock, "_G.INJ") \cup ShadowHeader("_G", GMock, "_G[\"INJ\"]")
     \cup Shadow("_G", GMock, GMock2, "_G.assert(ext1(3))")     \* aliases of the global are outside the rule: the argument is truthy
   ELSE {}
 
